@@ -535,6 +535,7 @@ impl Model {
         match &n.rk {
             RK::MapRef { src, proj } => match self.prev_view(*src) {
                 Some(MV::P(a, b)) => Some(MV::I(if *proj == 0 { a } else { b })),
+                Some(MV::I(x)) if *proj == 2 => Some(MV::I(x)),
                 _ => None,
             },
             RK::MapRefQ { src } => match self.prev_view(*src) {
@@ -593,6 +594,7 @@ impl Model {
             },
             RK::MapRef { src, proj } => match self.val(*src) {
                 Some(MV::P(a, b)) => Some(MV::I(if *proj == 0 { a } else { b })),
+                Some(MV::I(x)) if *proj == 2 => Some(MV::I(x)),
                 _ => None,
             },
             RK::ZipQ { a, b } => match (self.val(*a), self.cached_i(*b)) {
@@ -663,6 +665,10 @@ impl Model {
                 let continuously = self.cone_start.contains(&h) && self.nec_before_round.contains(&h) && !self.transient.contains(&h);
                 if continuously && s.last_run == Some(round) && s.last_changed == Some(round) {
                     let c = match (self.prev_view(h), self.val(h)) {
+                        // a map_with_old input never tells its dependants what it held before, so the
+                        // view cannot consult its cutoff and always reports the change (upstream's
+                        // documented trade-off, tests/basic.rs::map_with_old_map_ref)
+                        _ if matches!(s.rk, RK::MapWithOld { .. }) => true,
                         (Some(a), Some(b)) => !self.nodes[h].cutoff.cuts(a, b),
                         _ => true,
                     };
@@ -847,7 +853,9 @@ impl Model {
                 }
                 i += 1;
             }
-            cands.iter().skip(1).any(|(a, b)| *a == Some(old) && *b == Some(new))
+            // (an identity view of a scalar node is consulted with the very pair of its input)
+            let skip = if matches!(n.rk, RK::MapRef { proj: 2, .. }) { 0 } else { 1 };
+            cands.iter().skip(skip).any(|(a, b)| *a == Some(old) && *b == Some(new))
         });
         let swapped = n.prev_value == Some(new) && n.value == Some(old) && old != new;
         if swapped && !direct && !via_ref {
